@@ -1,4 +1,4 @@
-import BlugeProofs.C17.Real
+import BlugeProofs.C17.Reach
 /-! # C17 — scores obey the BM25 laws and explanations derive the score
 
 All theorems are about `BlugeGen.C17`, the translation of `/repo/search/similarity/{bm25,composite,constant}.go`
@@ -443,6 +443,149 @@ theorem explain_node_formula_fails : ¬ ExplainNodeFormula := by
   rw [hv] at this
   simp only [Nat.cast_one, Nat.cast_ofNat] at this hm
   linarith
+
+/-! ## phase 2: the hypotheses are reachable-exactly — where `n ≤ N`, `0 < avgdl` and `b < 1 ∨ 0 < dl` come from
+
+The scoring theorems above carry `n ≤ N` (the `uint64` subtraction in `Idf`), `0 < avgdl` and `b < 1 ∨ 0 < dl` (division
+by zero). The theorems below derive all three for the statistics of a REAL search from (a) how package index and the
+term searcher obtain them — sums over the same segments, re-extracted from the source as `statsFacts`; (b) a per-segment
+predicate on the segment plugin, `SegStat.ok`, which the correspondence run evaluates on every segment of every search;
+(c) the field-length pipeline `dlSeen` (identity up to the float32 `+Inf` pattern) and the analysed-document model
+(`freq ≤ length`, shape re-extracted as `lengthFacts`). -/
+
+/-- the denominator of the length normalisation vanishes EXACTLY in the corner `b = 1 ∧ dl = 0` (so `b < 1 ∨ 0 < dl` is
+the weakest hypothesis under which the real-number reading of `1 / (k1 * (1 - b + b * dl / avgdl))` is meaningful). On
+the real code (IEEE): `1/0 = +Inf`, and for `freq ≥ 1` the score is `weight - weight/Inf = weight` — finite and positive —
+and the tf node is `1 = freq/(freq + 0)`; for `freq = 0` it is `0 * Inf = NaN`. The correspondence run checks both on
+direct calls (branches `den-zero-saturates`, `den-zero-nan`). -/
+theorem den_zero_iff {k1 b avgdl : ℝ} {dl : ℕ} (hk : 0 < k1) (hb0 : 0 ≤ b) (hb1 : b ≤ 1) (ha : 0 < avgdl) :
+    den k1 b avgdl dl = 0 ↔ b = 1 ∧ dl = 0 := by
+  constructor
+  · intro h
+    by_contra hne
+    have hd : b < 1 ∨ 0 < dl := by
+      by_cases hb : b < 1
+      · exact Or.inl hb
+      · right
+        have hb' : b = 1 := le_antisymm hb1 (not_lt.mp hb)
+        rcases Nat.eq_zero_or_pos dl with h0 | h0
+        · exact absurd ⟨hb', h0⟩ hne
+        · exact h0
+    have := den_pos hk hb0 hb1 ha hd
+    linarith
+  · rintro ⟨rfl, rfl⟩
+    unfold den; simp
+
+example : den 1.2 1 3 0 = 0 := (den_zero_iff (by norm_num) (by norm_num) (by norm_num) (by norm_num)).mpr ⟨rfl, rfl⟩
+
+/-- **n_le_N_of_segments**: document frequency and documents-with-field are sums over the same segments, so the
+per-segment inequality lifts: the `uint64` subtraction `docCount - docFreq` of `Idf` cannot wrap on a real search -/
+theorem n_le_N_of_segments (segs : List SegStat) (h : segsOk segs = true) : docFreqOf segs ≤ docCountOf segs := by
+  rw [docFreqOf_eq, docCountOf_eq]; exact sum_n_le_sum_bigN segs h
+
+example : docFreqOf [⟨1, 3, 7⟩, ⟨0, 2, 5⟩, ⟨2, 2, 2⟩] ≤ docCountOf [⟨1, 3, 7⟩, ⟨0, 2, 5⟩, ⟨2, 2, 2⟩] :=
+  n_le_N_of_segments _ (by decide)
+
+/-- the predicate is needed: one segment that reports more live postings than documents with the field makes the
+subtraction wrap (and `idf_underflow` then gives an idf above that of the rarest possible term) -/
+theorem n_le_N_needs_segment_predicate : ¬ (docFreqOf [⟨2, 1, 1⟩, ⟨0, 0, 0⟩] ≤ docCountOf [⟨2, 1, 1⟩, ⟨0, 0, 0⟩]) ∧
+    segsOk [⟨2, 1, 1⟩, ⟨0, 0, 0⟩] = false := by decide
+
+/-- a hit is a live posting in some segment: `1 ≤ n`, `1 ≤ N`, and the average field length is positive -/
+theorem stats_pos_of_hit (segs : List SegStat) (hok : segsOk segs = true)
+    (hhit : segs.any (fun s => decide (1 ≤ s.n)) = true) :
+    1 ≤ docFreqOf segs ∧ 1 ≤ docCountOf segs ∧ (0 : ℝ) < (sumTtfOf segs : ℝ) / (docCountOf segs : ℝ) := by
+  have hn : 1 ≤ docFreqOf segs := by rw [docFreqOf_eq]; exact sum_n_pos segs hhit
+  have hN : 1 ≤ docCountOf segs := le_trans hn (n_le_N_of_segments segs hok)
+  have ht : 1 ≤ sumTtfOf segs := by rw [sumTtfOf_eq]; exact sum_ttf_pos segs hok hhit
+  refine ⟨hn, hN, ?_⟩
+  have h1 : (0 : ℝ) < (sumTtfOf segs : ℝ) := by exact_mod_cast ht
+  have h2 : (0 : ℝ) < (docCountOf segs : ℝ) := by exact_mod_cast hN
+  positivity
+
+/-- **dl_seen_eq_len**: for every field length up to the float32 `+Inf` pattern (2 139 095 040 tokens) the `docLen` that
+`Score` decodes is the field length — through `uint32(·)`, any number of merges, and the 31-bit 1-hit encoding -/
+theorem dl_seen_eq_len {len : ℕ} (h : len ≤ maxExactLen) (merges : ℕ) (oneHit : Bool) : dlSeen len merges oneHit = len :=
+  dlSeen_of_le h merges oneHit
+
+example : dlSeen 7 3 true = 7 := dl_seen_eq_len (by decide) 3 true
+
+/-- the bound is needed: 2^32 tokens are seen as length 0, a NaN pattern is quieted, the 1-hit encoding drops bit 31 -/
+theorem dl_seen_bound_needed :
+    dlSeen (2 ^ 32) 0 false = 0 ∧ dlSeen 0x7f800001 0 false = 0x7fc00001 ∧ dlSeen 0x80000001 1 true = 1 := by decide
+
+/-- **freq_le_len**: a term cannot occur more often in a field than the field has tokens (any document, any number of
+same-named fields; a composite field is covered by `expandComposite`) — in particular a document that matches has
+`1 ≤ dl` -/
+theorem freq_le_len (doc : List AField) (name term : String) : termFreq doc name term ≤ fieldLength doc name :=
+  termFreq_le_fieldLength doc name term
+
+theorem composite_freq_le_len (cname : String) (inc : String → Bool) (doc : List AField) (term : String) :
+    termFreq (expandComposite cname inc doc) cname term ≤ fieldLength (expandComposite cname inc doc) cname :=
+  termFreq_le_fieldLength _ cname term
+
+example : termFreq (expandComposite "all" (fun _ => true) [⟨"body", ["x", "y", "x"]⟩, ⟨"title", ["x"]⟩]) "all" "x" = 3 ∧
+    fieldLength (expandComposite "all" (fun _ => true) [⟨"body", ["x", "y", "x"]⟩, ⟨"title", ["x"]⟩]) "all" = 4 := by decide
+
+/-- **real_hit_score_pos_bounded**: the score of a real hit is positive and below `boost · idf` with NO hypothesis on
+`n`, `N`, `avgdl` or `dl` left — only the similarity's parameters, the boost, and the decidable predicate `RealHitOk`
+that the correspondence run evaluates on every term node of every real hit (`bad:assumption-…` when it fails) -/
+theorem real_hit_score_pos_bounded {k1 b boost : ℝ} (segs : List SegStat) (f len merges : ℕ) (oneHit : Bool)
+    (hk : 0 < k1) (hb0 : 0 ≤ b) (hb1 : b ≤ 1) (hB : 0 < boost) (h : RealHitOk segs f len = true) :
+    let sc := termScorer k1 b boost (docFreqOf segs) (docCountOf segs) (sumTtfOf segs)
+    0 < sc.score f (dlSeen len merges oneHit) ∧
+      sc.score f (dlSeen len merges oneHit) < boost * idfR (docFreqOf segs) (docCountOf segs) := by
+  intro sc
+  unfold RealHitOk at h
+  simp only [Bool.and_eq_true, decide_eq_true_eq] at h
+  obtain ⟨⟨⟨⟨⟨hok, hhit⟩, hN⟩, hf⟩, hfl⟩, hlen⟩ := h
+  obtain ⟨_, _, havg⟩ := stats_pos_of_hit segs hok hhit
+  have hnN := n_le_N_of_segments segs hok
+  have hdl : dlSeen len merges oneHit = len := dl_seen_eq_len (by unfold maxExactLen; exact hlen) merges oneHit
+  have hd : b < 1 ∨ 0 < len := Or.inr (by omega)
+  show 0 < (termScorer k1 b boost (docFreqOf segs) (docCountOf segs) (sumTtfOf segs)).score f (dlSeen len merges oneHit) ∧ _
+  rw [termScorer_eq, hdl]
+  exact ⟨score_pos hk hb0 hb1 havg hB hnN hN hf hd, score_lt_weight hk hb0 hb1 havg hB hnN hN hf hd⟩
+
+example : RealHitOk [⟨1, 3, 7⟩, ⟨0, 2, 5⟩] 1 2 = true := by decide
+
+/-- the same for the monotonicity laws: on real hits `mono_freq`, `anti_len` and `anti_df_score` need nothing but
+`RealHitOk` of the two hits that are compared (stated for `mono_freq`; the others follow the same way) -/
+theorem real_hit_mono_freq {k1 b boost : ℝ} (segs : List SegStat) (f f' len : ℕ)
+    (hk : 0 < k1) (hb0 : 0 ≤ b) (hb1 : b ≤ 1) (hB : 0 < boost) (h : RealHitOk segs f len = true) (hff : f < f') :
+    let sc := termScorer k1 b boost (docFreqOf segs) (docCountOf segs) (sumTtfOf segs)
+    sc.score f len < sc.score f' len := by
+  intro sc
+  unfold RealHitOk at h
+  simp only [Bool.and_eq_true, decide_eq_true_eq] at h
+  obtain ⟨⟨⟨⟨⟨hok, hhit⟩, hN⟩, hf⟩, hfl⟩, _⟩ := h
+  obtain ⟨_, _, havg⟩ := stats_pos_of_hit segs hok hhit
+  show (termScorer k1 b boost (docFreqOf segs) (docCountOf segs) (sumTtfOf segs)).score f len < _
+  rw [termScorer_eq]
+  exact mono_freq hk hb0 hb1 havg hB (n_le_N_of_segments segs hok) hN hf hff (Or.inr (by omega))
+
+/-! ## facts about the index and field code that the reachability argument rests on (re-extracted on every run) -/
+
+/-- `Snapshot.CollectionStats` folds `Merge` over the statistics of every segment, `postingsIterator.Count` sums the
+count of one postings list per segment built with that segment's deleted bitmap, and the term searcher takes both from
+the same reader for the same field; there is one BM25 scoring site -/
+theorem stats_facts_hold : statsFacts.all (fun f => f.2) = true := by decide
+
+theorem stats_facts_present : statsFacts.map (fun f => f.1) =
+    ["CollectionStats-folds-Merge-over-every-segment", "index-collectionStats-Merge-adds-counts",
+     "postingsIterator-Count-sums-every-list", "PostingsIterator-one-list-per-segment-except-deleted",
+     "PostingsIterator-one-dictionary-per-segment", "term-searcher-stats-from-same-reader-and-field",
+     "term-searcher-docFreq-is-reader-Count", "single-similarity-Scorer-site", "freq-norm-loaded-unless-score-none"] := by
+  decide
+
+/-- `analyzedLength` is only ever `len(tokens)` of the very token stream the frequencies are counted from, or (composite)
+the sum of consumed lengths beside the merge of the consumed frequencies; `TokenFrequency` adds 1 per token -/
+theorem length_facts_hold : lengthFacts.all (fun f => f.2) = true := by decide
+
+theorem length_facts_present : lengthFacts.map (fun f => f.1) =
+    ["analyzedLength-written-twice", "Analyze-length-is-len-tokens-beside-TokenFrequency-of-tokens",
+     "Consume-adds-length-beside-MergeAll", "Length-returns-analyzedLength", "TokenFrequency-adds-one-per-token",
+     "norm-calc-is-similarity-ComputeNorm"] := by decide
 
 /-! ## facts about the search code (package searcher) -/
 
